@@ -292,8 +292,17 @@ def report(prop, tier, seed, cases, results, replays, t_start, verbose):
     violations, known_hits, spurious, inconclusive, errors, cosim_bad = [], [], [], [], [], []
     os.makedirs(os.path.join(VERIF, 'replay', prop), exist_ok=True)
     for c, cand, rr in replays:
-        reproduced = bool(rr['failed']) and not rr['outside'] and not rr.get('error')
         key = '%s:%s' % (c.name, _base(cand['label']))
+        aliases = getattr(sys.modules.get('harness.' + prop.lower()), 'ALIASES', {})
+        lb = _base(cand['label'])
+        ok_labels = {lb} | set(aliases.get(lb, ()))
+        if lb.startswith('no_exception'):
+            same = [x for x in rr['failed'] if _base(x[0]).startswith('no_exception')]
+        else:
+            same = [x for x in rr['failed'] if _base(x[0]) in ok_labels]
+        reproduced = bool(same) and not rr['outside'] and not rr.get('error')
+        if reproduced:
+            rr = dict(rr, failed=same)
         if reproduced:
             path = os.path.join(VERIF, 'replay', prop, (key.replace('/', '_').replace(':', '__'))[:150] + '.json')
             json.dump(dict(property=prop, tier=tier, case=c.name, label=cand['label'], kind=cand['kind'], values=cand['values'],
@@ -345,6 +354,35 @@ def report(prop, tier, seed, cases, results, replays, t_start, verbose):
                 cosim_bad.append((c.name, cr['error']))
             elif cr['failed'] and not cr['outside']:
                 cosim_bad.append((c.name, cr['failed'][:2]))
+    # solver inconclusive on an obligation family, but the concrete co-simulation of the same case (real code, plain
+    # NumPy, random inputs inside the preconditions) fails exactly that family: report the concrete witness
+    aliases = getattr(sys.modules.get('harness.' + prop.lower()), 'ALIASES', {})
+    for c in cases:
+        r = results[c.name]
+        und = set()
+        for o in r['obls']:
+            if o['verdict'] not in ('unsat', 'sat'):
+                b = _base(o['label'])
+                und.add(b)
+                und.update(aliases.get(b, ()))
+        if not und:
+            continue
+        for cr in (results.get('_cosim', {}).get(c.name) or []):
+            if cr.get('error') or cr.get('outside'):
+                continue
+            hit = [x for x in cr['failed'] if _base(x[0]) in und or (_base(x[0]).startswith('no_exception') and any(u.startswith('no_exception') for u in und))]
+            if hit:
+                key = '%s:%s' % (c.name, _base(hit[0][0]))
+                path = os.path.join(VERIF, 'replay', prop, (key.replace('/', '_').replace(':', '__'))[:150] + '.cosim.json')
+                json.dump(dict(property=prop, tier=tier, case=c.name, label=hit[0][0], kind='cosim-witness (solver inconclusive)',
+                               values=cr.get('inputs'), observed=hit[:5], bounds=c.bounds), open(path, 'w'), indent=1)
+                k_hit = None
+                for k in known:
+                    if fnmatch.fnmatch(key, k['key']):
+                        k_hit = k
+                        break
+                (known_hits if k_hit else violations).append((key, path, hit[:2], k_hit))
+                break
     # spurious candidates: a sat obligation that did not reproduce is inconclusive
     sp_keys = set(k for k, _ in spurious)
     rep_keys = set(k for k, *_ in violations) | set(k for k, *_ in known_hits)
